@@ -248,6 +248,52 @@ def itemDec : Decoder Bytes := fun bs =>
   | .eoi => .eoi
   | .bad => .fail
 
+/-! ## local-tx-submission framing: the item decoder plus the node's plain-string rejection format -/
+
+def isCont (b : UInt8) : Bool := 0x80 ≤ b.toNat && b.toNat ≤ 0xBF
+
+/-- `core::str::from_utf8(..).is_ok()` (RFC 3629: no overlong forms, no surrogates, at most U+10FFFF) -/
+def validUtf8 : Bytes → Bool
+  | [] => true
+  | b :: rest =>
+    if b.toNat < 0x80 then validUtf8 rest
+    else if 0xC2 ≤ b.toNat ∧ b.toNat ≤ 0xDF then
+      match rest with
+      | c :: r => isCont c && validUtf8 r
+      | _ => false
+    else if 0xE0 ≤ b.toNat ∧ b.toNat ≤ 0xEF then
+      match rest with
+      | c :: d :: r =>
+        (if b.toNat = 0xE0 then 0xA0 ≤ c.toNat && c.toNat ≤ 0xBF
+         else if b.toNat = 0xED then 0x80 ≤ c.toNat && c.toNat ≤ 0x9F
+         else isCont c) && isCont d && validUtf8 r
+      | _ => false
+    else if 0xF0 ≤ b.toNat ∧ b.toNat ≤ 0xF4 then
+      match rest with
+      | c :: d :: e :: r =>
+        (if b.toNat = 0xF0 then 0x90 ≤ c.toNat && c.toNat ≤ 0xBF
+         else if b.toNat = 0xF4 then 0x80 ≤ c.toNat && c.toNat ≤ 0x8F
+         else isCont c) && isCont d && isCont e && validUtf8 r
+      | _ => false
+    else false
+
+/-- marker the driver prints for a `RejectTx(Plutus(string))` (pallas cannot re-encode it) -/
+def rejectMarker : Bytes := [0x00]
+
+/-- `Decode for localtxsubmission::Message` at the framing level (after the end-of-input repair): when the
+    leading `array()` fails with anything but end-of-input, the *whole buffer* is tried as UTF-8 text and,
+    if valid, returned as a rejection — with the decoder position still right after the one byte `array()`
+    consumed. A message that starts with an array head is one CBOR item. -/
+def ltxDec : Decoder Bytes := fun bs =>
+  match bs with
+  | [] => .eoi
+  | b :: rest =>
+    if b.toNat / 32 = 4 ∧ (b.toNat % 32 < 28 ∨ b.toNat % 32 = 31) then itemDec bs
+    else
+      -- `array()` error: end-of-input only through the `type_of` peek quirk, see `mismatch` below
+      if b.toNat / 32 ≠ 4 ∧ 0x38 ≤ b.toNat ∧ b.toNat ≤ 0x3b ∧ rest.length < 2 then .eoi
+      else if validUtf8 bs then .ok rejectMarker 1 else .fail
+
 /-! ## the keep-alive codec (`miniprotocols/keepalive/codec.rs`, identical in `pallas-network2/src/protocol/keepalive.rs`)
      over a model of the minicbor 0.26 primitives it uses -/
 
